@@ -3,10 +3,10 @@
    and ';' splitting is exercised by the correspondence on real files); cohort = cohort_size,
    salvage = salvage_negated_frequencies; pf l = the (numerator, denominator) _parse_frequency gives
    for line l. *)
-From Coq Require Import String List Bool Arith ZArith Permutation.
+From Coq Require Import String Ascii List Bool Arith ZArith Permutation.
 From Coq Require Import PrimFloat.
 From Hpotk Require Import Base.Result Base.Str TermId.Model Io.Model Hpoa.Float Hpoa.Model Hpoa.Proofs Hpoa.Range Hpoa.Text Hpoa.TextProofs.
-From Hpotk Require Import Hpoa.VersionLine.
+From Hpotk Require Import Hpoa.VersionLine Hpoa.FreqSpec.
 Import ListNotations.
 
 (* exactly one disease per distinct database id; per disease exactly one annotation per distinct
@@ -96,3 +96,19 @@ Theorem C08_version_header : forall (ln v : String.string),
   version_of_line ln = Some v <->
   (v <> EmptyString /\ all_word_dash v = true /\ (chomp ln = ("#date: " ++ v)%string \/ chomp ln = ("#version: " ++ v)%string)).
 Proof. exact version_of_line_spec. Qed.
+
+(* the frequency column as text: an HPO term is "HP:" + seven digits; a ratio is digits "/" digits and denotes those two
+   numbers; a percentage is digits, optionally "." and more digits, then "%", and its literal (without the sign) is what
+   float() converts; the forms exclude one another, so the order in which the loader tries them does not matter *)
+Theorem C08_frequency_forms : forall (s : String.string),
+  (is_hpo_id s = true <-> exists d, s = ("HP:" ++ d)%string /\ String.length d = 7 /\ all_digits d = true) /\
+  (forall n m, ratio_of s = Some (n, m) <->
+     exists a b, s = (a ++ String "/"%char b)%string /\ digits a = true /\ digits b = true /\ n = int_of a /\ m = int_of b) /\
+  (forall v, percent_literal s = Some v <->
+     (s = (v ++ "%")%string /\ (digits v = true \/ exists a b, v = (a ++ String "."%char b)%string /\ digits a = true /\ all_digits b = true))) /\
+  (is_hpo_id s = true -> ratio_of s = None /\ percent_literal s = None) /\
+  (forall n m, ratio_of s = Some (n, m) -> percent_literal s = None).
+Proof.
+  exact (fun s => conj (is_hpo_id_spec s) (conj (ratio_of_spec s) (conj (percent_literal_spec s)
+                  (conj (proj1 (frequency_forms_disjoint s)) (proj2 (frequency_forms_disjoint s)))))).
+Qed.
